@@ -203,3 +203,14 @@ package codec
 //@ loop 0 invariant _codec != nil && len(candidateCodecs) <= len(SupportedCodecs) && (forall k int :: 0 <= k && k < len(candidateCodecs) ==> candidateCodecs[k] != nil)
 //@ ensures err == nil ==> _codec != nil
 //@ modifies nothing
+
+// Reading a segment index file never panics, whatever the file holds (it may be empty or
+// cut short by a crash): a file too short to carry the checksum header, or whose checksum
+// does not match, is reported as corrupted data, which makes the caller rebuild the index
+// from the segment.
+//
+//@ func V2.ReadIndex(v, path) (index, err)
+//@ property C10
+//@ assume v.IdxHeaderSize == 4 because "V2 values are only the package-level v2 (IdxHeaderSize 4); the field is never written outside the package initialiser"
+//@ assume at call ReadAll#0: len(b) <= 4294967295 because "scope: index files are far below 4 GiB (4 bytes per entry of one segment)"
+//@ modifies *
